@@ -20,7 +20,10 @@ def run(ctx):
     n = 60 if ctx.quick else 1200
     for i in range(n):
         h = PC.Hist(ctx, ctx.scratch)
-        data = h.save()
+        try: data = h.save()
+        except Exception as e:
+            ctx.oracle_cases += 1
+            ctx.violation('save-raised', {'history': describe(h)}, repr(e)[:300], 'a package', {'exception': type(e).__name__}); continue
         tag = 'fresh'
         PC.corr_package(ctx, h.root, data, tag)
         objs = [(d.folder[1:] + '/', d.mimetype) for d in h.docs[1:] if reachable(h.root, d)]
